@@ -573,6 +573,7 @@ def no_hidden_state(chk, repo, pid):
                f'so the result is not a function of the arguments alone', loc)
     chk.ob(clause, 'E4-module-state', '+'.join(mods), 'no hidden state', not bad, f'{n} functions scanned', '')
     lazy_attribute_rule(chk, repo, clause, mods)
+    memory_layout_rule(chk, repo, clause, mods)
     no_tolerance_shortcut(chk, repo, pid)
     return eff
 
@@ -623,6 +624,31 @@ def mask_index_rule(chk, repo, clause, keys, config=None):
 
 
 LAZY_CALLS = ('map', 'filter', 'zip', 'iter', 'reversed', 'enumerate')
+
+
+def memory_layout_rule(chk, repo, clause, mods):
+    """The memory layout of an argument (C or Fortran order, a transposed view) is not part of its value: flattening or
+    reshaping in "whatever order the data happens to be stored" (`order='K'` / `'A'`) pairs the samples with index grids
+    flattened in C order differently for equal arrays."""
+    bad, n = [], 0
+    for f in repo.all_functions():
+        if f.module.name not in mods:
+            continue
+        for node in ast.walk(f.node):
+            if not isinstance(node, ast.Call):
+                continue
+            name = node.func.attr if isinstance(node.func, ast.Attribute) else getattr(node.func, 'id', '')
+            if name not in ('ravel', 'flatten', 'reshape', 'resize', 'nditer', 'tobytes', 'tostring'):
+                continue
+            n += 1
+            for k in node.keywords:
+                if k.arg == 'order' and isinstance(k.value, ast.Constant) and k.value.value in ('K', 'A', 'k', 'a'):
+                    bad.append(f"{f.key}: `{f.module.segment(node)[:60]}` at {f.loc(node)}")
+            if name in ('ravel', 'flatten') and node.args and isinstance(node.args[-1], ast.Constant) and node.args[-1].value in ('K', 'A'):
+                bad.append(f"{f.key}: `{f.module.segment(node)[:60]}` at {f.loc(node)}")
+    chk.ob(clause, 'E5-layout', '+'.join(mods), 'samples are enumerated in index order, never in the order the argument happens to be stored in',
+           not bad, ('; '.join(bad[:2]) + ': a Fortran-ordered or transposed argument with the same values gives another result') if bad
+           else f'{n} flatten / reshape call(s)', '')
 
 
 def lazy_attribute_rule(chk, repo, clause, mods):
